@@ -6,7 +6,7 @@ From Texel Require Import Chess.Types Chess.Position Chess.PositionSpec Chess.Po
   Chess.PositionProofs Chess.PositionProofs2 Chess.PositionProofs3 Chess.PositionTheorems Chess.PositionInst
   Chess.PositionExamples Chess.Fen Chess.Spec Chess.BitBoard Chess.MoveGen Chess.MoveGenWF
   RevGen.RevGen RevGen.RevFacts RevGen.RevAbs RevGen.RevRestore RevGen.RevValid RevGen.RevCand RevGen.RevRaw RevGen.RevLegal
-  RevGen.RevPremise.
+  RevGen.RevPremise RevGen.RevCons.
 Import ListNotations.
 Local Open Scope N_scope.
 
@@ -163,4 +163,29 @@ Proof.
     + right. left. vm_compute. reflexivity.
     + rewrite E. discriminate.
   - vm_compute. reflexivity.
+Qed.
+
+(** * consistency: non-vacuity.  Q = kiwipete after Ra1-b1; the un-move Na4-c3 (restoring castle mask 14) *)
+Definition qAfterRb1 : position := successor zk0 kiwiPos (mkMove 0 1 EMPTY).
+Definition umNa4c3 : unMove := mkUnMove (mkMove 24 18 EMPTY) (mkUndo EMPTY 14 (-1)%Z 0%Z).
+
+Example consistent_example :
+  In umNa4c3 (genMoves zk0 qAfterRb1 false) /\
+  Consistent zk0 (unMakeMove zk0 qAfterRb1 (mkMove 24 18 EMPTY) (mkUndo EMPTY 14 (-1)%Z 0%Z)) /\
+  abs (successor zk0 (unMakeMove zk0 qAfterRb1 (mkMove 24 18 EMPTY) (mkUndo EMPTY 14 (-1)%Z 0%Z)) (mkMove 24 18 EMPTY)) = abs qAfterRb1 /\
+  legal_spec (abs (unMakeMove zk0 qAfterRb1 (mkMove 24 18 EMPTY) (mkUndo EMPTY 14 (-1)%Z 0%Z))) (mkMove 24 18 EMPTY).
+Proof.
+  assert (Hin : In umNa4c3 (genMoves zk0 qAfterRb1 false)) by (vm_compute; tauto).
+  assert (Cq : Consistent zk0 qAfterRb1) by (apply consistentb_sound; vm_compute; reflexivity).
+  assert (Hw : WF qAfterRb1) by (vm_compute; reflexivity).
+  split; [exact Hin|].
+  assert (H1 : mpromote (um_move umNa4c3) = EMPTY) by reflexivity.
+  assert (H2 : isPawnPiece (nthP (squares qAfterRb1) (mto (um_move umNa4c3))) = false) by (vm_compute; reflexivity).
+  assert (H3 : isKingPiece (nthP (squares qAfterRb1) (mto (um_move umNa4c3))) = true ->
+               mto (um_move umNa4c3) <> mfrom (um_move umNa4c3) + 2 /\ mto (um_move umNa4c3) + 2 <> mfrom (um_move umNa4c3)).
+  { intro H. vm_compute in H. discriminate. }
+  destruct (RevCons.consistent_pieces zk0 qAfterRb1 Cq Hw false umNa4c3 Hin H1 H2 H3) as (A & B).
+  split; [exact A|]. split; [exact B|].
+  apply (RevCons.legal_knight_king zk0 qAfterRb1 Cq Hw false umNa4c3 Hin H1 H2 H3).
+  left. vm_compute. reflexivity.
 Qed.
